@@ -569,7 +569,32 @@ func c19(c *Ctx) {
 				continue
 			}
 			cl, ok := ast.Unparen(call.Args[0]).(*ast.CompositeLit)
-			if !ok || litField(cl, "CurrentTime") == nil {
+			if !ok {
+				// a local of this function every definition of which is such a literal (built for this request, possibly
+				// by a constructor that was expanded here; the empty literal of an error path does not count against it)
+				if id, isID := ast.Unparen(call.Args[0]).(*ast.Ident); isID {
+					if obj, isVar := astx.Obj(info, id).(*types.Var); isVar && obj.Pos() >= hs.Body().Pos() && obj.Pos() <= hs.Body().End() {
+						all := true
+						for _, d := range defsOf(info, hs.Node(), obj) {
+							if d == nil {
+								continue
+							}
+							dl, isLit := ast.Unparen(d).(*ast.CompositeLit)
+							if !isLit {
+								all = false
+								continue
+							}
+							if litField(dl, "CurrentTime") != nil {
+								cl = dl
+							}
+						}
+						if !all {
+							cl = nil
+						}
+					}
+				}
+			}
+			if cl == nil || litField(cl, "CurrentTime") == nil {
 				continue
 			}
 			nEnc++
@@ -610,6 +635,14 @@ func c19(c *Ctx) {
 		var bodies []body
 		for _, lit := range funcLitsIn(ct.Body()) {
 			bodies = append(bodies, body{c.LitGraph(ct.Name()+"$go", lit, info), lit})
+			// a literal that only hands its parameters on to a function of the package: that function is the measuring code
+			for _, call := range astx.Calls(lit.Body, false) {
+				if fn := astx.Callee(info, call); fn != nil {
+					if h := c.P.FuncOf(fn); h != nil && h.Body() != nil && load.ShortPkg(h.Pkg.PkgPath) == "timesafeguard" && h != gst {
+						bodies = append(bodies, body{c.Graph(h), h.Node()})
+					}
+				}
+			}
 		}
 		ast.Inspect(ct.Body(), func(nd ast.Node) bool {
 			if gs, ok := nd.(*ast.GoStmt); ok {
